@@ -211,7 +211,11 @@ func (x *Exec) onSend(fr *Frame, st *State, in *ssa.Send) {
 	x.checkEvent(fr, st, "send", in.Chan, x.operand(fr, st, in.X), in.X.Type())
 }
 
-func (x *Exec) onRecv(fr *Frame, st *State, in *ssa.UnOp, v Value) {}
+// onRecv: a receive is an event that may carry a "callback recv:<chan> requires ..." obligation
+// (e.g. a token may be taken back only by a call that put it there).
+func (x *Exec) onRecv(fr *Frame, st *State, in *ssa.UnOp, v Value) {
+	x.checkEvent(fr, st, "recv", in.X, nil, nil)
+}
 
 func (x *Exec) selectOp(fr *Frame, st *State, in *ssa.Select) Value {
 	n := len(in.States)
@@ -228,6 +232,14 @@ func (x *Exec) selectOp(fr *Frame, st *State, in *ssa.Select) Value {
 		if s.Dir == types.RecvOnly {
 			ct := s.Chan.Type().Underlying().(*types.Chan)
 			elems = append(elems, x.freshValue(st, ct.Elem(), "select.recv"))
+		}
+	}
+	// receive cases are events when chosen
+	for i, s := range in.States {
+		if s.Dir == types.RecvOnly {
+			cst := st.Clone()
+			cst.Assume(Eq(idx, BVConstU(uint64(i), 64)))
+			x.checkEvent(fr, cst, "recv", s.Chan, nil, nil)
 		}
 	}
 	// send cases are events when chosen
